@@ -21,6 +21,18 @@
 //                              if f2 = 1 and there is an answer, receives the answer
 //   cnt <n> <k>                (C16) not implemented here: see comp/lldata.py (source extraction build)
 // A trailing word a=0|1 (the allocation outcome, used by the model) is accepted and ignored.
+//
+// Built with -DVERIF_LLDATA_NRF52 (harness key "nrf52", C16) the real translation units
+// bindings/nordic/nrf52/nrf52.cpp and security_tool_box.cpp are part of this program (registers emulated by
+// harness/lldata/nrf_stub/nrf.h); the mock radio forwards increment_*_packet_counter() to
+// radio_hardware_with_crypto_support and every exchange (rx / ev) runs, as nrf52.hpp:radio_interrupt_handler does,
+// configure_receive_train( receive buffer or the fallback buffer ) before the reception and
+// configure_final_transmit( answer ) after the dispatch.  Additional ops:
+//   enc setup <key32hex> <skdm16hex> <ivm8hex> <rng24hex>   setup_encryption() -> "skds=<8 bytes> ivs=<4 bytes> iv=<ccm iv>"
+//   enc rx | enc rxtx | enc tx | enc off                    configure_encryption( 1,0 | 1,1 | 0,1 | 0,0 )  -> "ok"
+// After the first `enc` op of a session rx / ev lines end with " rn=<nonce> tn=<nonce>": the packet counter,
+// direction and IV octets of ccm_data_struct ("<ctr10hex>:<dir>:<iv16hex>") when the call started the CCM key
+// stream generation (TASKS_KSGEN), "plain" otherwise, "-" if the call did not take place.
 #include "common/proto.hpp"
 #include <cassert>
 #include <memory>
@@ -33,6 +45,105 @@
 #undef private
 
 namespace ll = bluetoe::link_layer;
+
+#ifdef VERIF_LLDATA_NRF52
+extern "C" {
+#include "aes.h"
+}
+#include "bluetoe/bindings/nordic/nrf52/security_tool_box.cpp"
+#include "bluetoe/bindings/nordic/nrf52/nrf52.cpp"
+
+NRF_RNG_Type    verif_nrf_rng;
+NRF_ECB_Type    verif_nrf_ecb;
+NRF_CLOCK_Type  verif_nrf_clock;
+NRF_RTC_Type    verif_nrf_rtc0;
+NRF_RADIO_Type  verif_nrf_radio;
+NRF_TIMER_Type  verif_nrf_timer0, verif_nrf_timer1;
+NRF_TEMP_Type   verif_nrf_temp;
+NRF_CCM_Type    verif_nrf_ccm;
+NRF_AAR_Type    verif_nrf_aar;
+NRF_PPI_Type    verif_nrf_ppi;
+NRF_GPIOTE_Type verif_nrf_gpiote;
+NRF_GPIO_Type   verif_nrf_gpio;
+NRF_FICR_Type   verif_nrf_ficr;
+NVIC_Type       verif_nrf_nvic;
+
+static std::vector< std::uint8_t > rng_script;
+static std::size_t                 rng_pos = 0;
+
+void verif_nrf::rng_task_start()
+{
+    if ( rng_pos == rng_script.size() )
+        throw verif_rng_exhausted();
+
+    verif_nrf_rng.VALUE         = rng_script[ rng_pos++ ];
+    verif_nrf_rng.EVENTS_VALRDY = 1;
+}
+
+void verif_nrf::ecb_task_start()
+{
+    // nRF52 ECB data structure: KEY[16] CLEARTEXT[16] CIPHERTEXT[16]
+    std::uint8_t* const p = reinterpret_cast< std::uint8_t* >( static_cast< std::uintptr_t >( verif_nrf_ecb.ECBDATAPTR ) );
+    struct AES_ctx ctx;
+    AES_init_ctx( &ctx, p );
+    std::uint8_t block[ 16 ];
+    std::memcpy( block, p + 16, 16 );
+    AES_ECB_encrypt( &ctx, block );
+    std::memcpy( p + 32, block, 16 );
+    verif_nrf_ecb.EVENTS_ENDECB = 1;
+}
+
+namespace nrfhw {
+    typedef bluetoe::nrf52_details::radio_hardware_with_crypto_support hw;
+
+    static bool enc_seen = false;
+    static std::string rn = "-", tn = "-";
+
+    // nRF52832 product specification, CCM data structure: KEY[16] PKTCTR[8] (39 bit used) DIRECTION[1] IV[8]
+    static std::string nonce()
+    {
+        const std::uint8_t* const d = bluetoe::nrf52_details::ccm_data_struct.data;
+        // the CCM reads its configuration through CNFPTR
+        if ( static_cast< std::uintptr_t >( verif_nrf_ccm.CNFPTR ) != reinterpret_cast< std::uintptr_t >( d ) )
+            return "cnfptr-not-set";
+        return verif::to_hex( d + 16, 5 ) + ":" + std::to_string( d[ 24 ] ) + ":" + verif::to_hex( d + 25, 8 );
+    }
+
+    static void reset()
+    {
+        enc_seen = false;
+        rn = tn = "-";
+        std::memset( &verif_nrf_ccm, 0, sizeof( verif_nrf_ccm ) );
+        std::memset( &verif_nrf_radio, 0, sizeof( verif_nrf_radio ) );
+        // radio_hardware_with_crypto_support::init(): CNFPTR (the remainder of init() needs the clocks)
+        verif_nrf_ccm.CNFPTR = reinterpret_cast< std::uintptr_t >( &bluetoe::nrf52_details::ccm_data_struct );
+        // the counters are static members: back to zero for the next session
+        hw::configure_encryption( true, true );
+        hw::configure_encryption( true, false );
+        hw::configure_encryption( false, false );
+    }
+
+    static void before_receive( const ll::read_buffer& buf )
+    {
+        verif_nrf_ccm.TASKS_KSGEN = 0;
+        hw::configure_receive_train( buf );
+        rn = verif_nrf_ccm.TASKS_KSGEN ? nonce() : "plain";
+        tn = "-";
+    }
+
+    static void before_transmit( const ll::write_buffer& buf )
+    {
+        verif_nrf_ccm.TASKS_KSGEN = 0;
+        hw::configure_final_transmit( buf );
+        tn = verif_nrf_ccm.TASKS_KSGEN ? nonce() : "plain";
+    }
+
+    static std::string suffix()
+    {
+        return enc_seen ? " rn=" + rn + " tn=" + tn : std::string();
+    }
+}
+#endif
 
 // copy of bluetoe::nrf_details::encrypted_pdu_layout (bindings/nordic/include/bluetoe/nrf.hpp needs
 // the vendor's nrf.h): one unused byte between header and body
@@ -77,8 +188,13 @@ struct mock_radio : ll::ll_data_pdu_buffer< TX, RX, mock_radio< TX, RX, Layout >
     };
 
     unsigned long rc = 0, tc = 0;
+#ifdef VERIF_LLDATA_NRF52
+    void increment_receive_packet_counter() { ++rc; nrfhw::hw::increment_receive_packet_counter(); }
+    void increment_transmit_packet_counter() { ++tc; nrfhw::hw::increment_transmit_packet_counter(); }
+#else
     void increment_receive_packet_counter() { ++rc; }
     void increment_transmit_packet_counter() { ++tc; }
+#endif
 
     // the protected radio interface, reached by inheritance as the real radios do
     typedef ll::ll_data_pdu_buffer< TX, RX, mock_radio< TX, RX, Layout > > base_t;
@@ -195,6 +311,14 @@ struct wrapper : buf_if
         ll::read_buffer buf = b->r_allocate_receive_buffer();
         a = buf.size != 0;
 
+#ifdef VERIF_LLDATA_NRF52
+        {
+            // nrf52.hpp receive_buffer(): without a free buffer the radio receives into empty_receive_[]
+            static std::uint8_t empty_receive[ 3 ];
+            nrfhw::before_receive( a ? buf : ll::read_buffer{ &empty_receive[ 0 ], sizeof( empty_receive ) } );
+        }
+#endif
+
         if ( fault == "lost" )
             return false;
 
@@ -213,6 +337,9 @@ struct wrapper : buf_if
             ? b->r_next_transmit()
             : ( valid_pdu ? b->r_received( buf ) : b->r_acknowledge( buf ) );
 
+#ifdef VERIF_LLDATA_NRF52
+        nrfhw::before_transmit( trans );
+#endif
         r = read_pdu( trans );
         return true;
     }
@@ -286,8 +413,43 @@ int main()
             if ( !n ) return "bad-op";
             buf = std::move( n );
             central = central_t();
+#ifdef VERIF_LLDATA_NRF52
+            nrfhw::reset();
+#endif
             return "ok";
         }
+#ifdef VERIF_LLDATA_NRF52
+        if ( w[ 0 ] == "enc" && w.size() == 2 )
+        {
+            if ( w[ 1 ] == "rx" )        nrfhw::hw::configure_encryption( true, false );
+            else if ( w[ 1 ] == "rxtx" ) nrfhw::hw::configure_encryption( true, true );
+            else if ( w[ 1 ] == "tx" )   nrfhw::hw::configure_encryption( false, true );
+            else if ( w[ 1 ] == "off" )  nrfhw::hw::configure_encryption( false, false );
+            else return "bad-op";
+            nrfhw::enc_seen = true;
+            return "ok";
+        }
+        if ( w[ 0 ] == "enc" && w.size() == 6 && w[ 1 ] == "setup" )
+        {
+            std::vector< std::uint8_t > key, skdm, ivm, rng;
+            if ( !verif::parse_hex( w[ 2 ], key ) || key.size() != 16 || !verif::parse_hex( w[ 3 ], skdm ) || skdm.size() != 8
+              || !verif::parse_hex( w[ 4 ], ivm ) || ivm.size() != 4 || !verif::parse_hex( w[ 5 ], rng ) || rng.size() != 12 )
+                return "bad-op";
+            bluetoe::details::uint128_t k;
+            std::copy( key.begin(), key.end(), k.begin() );
+            rng_script = rng;
+            rng_pos    = 0;
+            verif_nrf_rng.EVENTS_VALRDY = 0;
+            const std::pair< std::uint64_t, std::uint32_t > r = nrfhw::hw::setup_encryption(
+                k, bluetoe::details::read_64bit( skdm.data() ), bluetoe::details::read_32bit( ivm.data() ) );
+            std::uint8_t out[ 12 ];
+            bluetoe::details::write_64bit( &out[ 0 ], r.first );
+            bluetoe::details::write_32bit( &out[ 8 ], r.second );
+            nrfhw::enc_seen = true;
+            return "skds=" + verif::to_hex( &out[ 0 ], 8 ) + " ivs=" + verif::to_hex( &out[ 8 ], 4 )
+                + " iv=" + verif::to_hex( bluetoe::nrf52_details::ccm_data_struct.data + 25, 8 );
+        }
+#endif
         if ( w[ 0 ] == "tx" && w.size() == 3 && verif::parse_u64( w[ 1 ], v ) && v < 4 && verif::parse_hex( w[ 2 ], bytes )
             && !bytes.empty() && bytes.size() <= buf->max_tx_body() )
             return buf->tx( v, bytes );
@@ -307,7 +469,11 @@ int main()
             x.body.assign( bytes.begin() + 2, bytes.end() );
             bool a = false;
             const bool answered = buf->rx( w[ 1 ], x, a, r );
-            return std::string( "a=" ) + ( a ? "1" : "0" ) + " r=" + ( answered ? pdu_hex( r ) : "none" ) + " " + buf->counters();
+            return std::string( "a=" ) + ( a ? "1" : "0" ) + " r=" + ( answered ? pdu_hex( r ) : "none" ) + " " + buf->counters()
+#ifdef VERIF_LLDATA_NRF52
+                + nrfhw::suffix()
+#endif
+                ;
         }
         if ( w[ 0 ] == "ev" && w.size() == 5 && is_fault( w[ 1 ] ) && ( w[ 2 ] == "0" || w[ 2 ] == "1" )
             && verif::parse_u64( w[ 3 ], v ) && v < 4 && verif::parse_hex( w[ 4 ], bytes ) && bytes.size() <= buf->max_body() )
@@ -320,7 +486,11 @@ int main()
                 central.receive( r );
             return std::string( "a=" ) + ( a ? "1" : "0" ) + " c=" + pdu_hex( x ) + " r=" + ( answered ? pdu_hex( r ) : "none" )
                 + " " + buf->counters() + " cs=" + ( central.sn ? "1" : "0" ) + ( central.nesn ? "1" : "0" )
-                + " cd=" + std::to_string( central.done ) + " cg=" + std::to_string( central.got );
+                + " cd=" + std::to_string( central.done ) + " cg=" + std::to_string( central.got )
+#ifdef VERIF_LLDATA_NRF52
+                + nrfhw::suffix()
+#endif
+                ;
         }
         return "bad-op";
     } );
